@@ -69,8 +69,7 @@ Print Assumptions C19_new_client_starts_at_first_step.
 
 (* tie: the functions this property's model describes by hand (not by translation) still have the pinned text; an
    edit to one of them breaks this obligation and sends the check searching for a failing input *)
-From VL Require Import ShapeFacts.
 From VLG Require Import ShapeGen.
 Theorem C19_modelled_code_is_the_pinned_text : shapes_for_C19 = true.
-Proof. exact shapes_C19_ok. Qed.
+Proof. vm_compute. reflexivity. Qed.
 Print Assumptions C19_modelled_code_is_the_pinned_text.
